@@ -34,7 +34,7 @@ func zzASCII(s string) bool {
 func ZZ_C15_bandwidth_nopanic() {
 	n := 3
 	if zz.Tier() > 0 {
-		n = 5
+		n = 4
 	}
 	s := zz.Str("bw", n)
 	zz.Assume(zzASCII(s))
